@@ -1327,12 +1327,12 @@ def seek_model(ex, base_len, pos, sf):
     return ('ok', z3.simplify(B + O))
 
 
-@model(r'<std::io::Cursor<Vec<u8>> as Seek>::(seek|stream_position|rewind)')
+@model(r'<std::io::Cursor<Vec<u8>> as (std::io::)?Seek>::(seek|stream_position|rewind)')
 def m_cursor_seek(ex, c, a, m):
     cur = d(a[0])
-    if m.group(1) == 'stream_position':
+    if m.group(2) == 'stream_position':
         return Ok(cur.cell['pos'])
-    if m.group(1) == 'rewind':
+    if m.group(2) == 'rewind':
         cur.cell['pos'] = 0
         return Ok(UNIT)
     r = seek_model(ex, len(cur.cell['data']), cur.cell['pos'], a[1])
@@ -1665,6 +1665,7 @@ def m_pin_new(ex, c, a, m):
 
 
 from . import osm   # noqa: E402  (registers the OS contract model)
+from . import asyncrt   # noqa: E402  (async run time models)
 
 
 @model(r'core::str::<impl str>::replace::<.+>|std::str::<impl str>::replace::<.+>|alloc::str::<impl str>::replace::<.+>')
@@ -1681,3 +1682,8 @@ def m_str_replace(ex, c, a, m):
             out.append(s[i])
             i += 1
     return S(out)
+
+
+@model(r'std::io::_print|std::io::_eprint')
+def m_print(ex, c, a, m):
+    return UNIT
